@@ -28,7 +28,7 @@ def run(ctx):
     binp = ctx.build()
     pipecommon.run_gen(ctx, binp, "Access", "Q" if q else "T", key, "access_case")
     time_frames(ctx, binp, q)
-    ctx.exhaustive = not q
+    ctx.exhaustive = False      # the thorough tier runs the base set and a random subset of 120000 of about 700000 cases
 
 
 def time_frames(ctx, binp, q):
